@@ -7,6 +7,7 @@ to enable fine-grained incremental reprocessing of changes.
 from __future__ import annotations
 
 import argparse
+import inspect
 import io
 import json
 import os
@@ -292,8 +293,12 @@ class Server:
         else:
             if command not in {"check", "recheck", "run"}:
                 # Only the above commands use some error formatting.
-                del data["is_tty"]
-                del data["terminal_width"]
+                data.pop("is_tty", None)
+                data.pop("terminal_width", None)
+            try:
+                inspect.signature(method).bind(self, **data)
+            except TypeError as err:
+                return {"error": f"Invalid arguments for command '{command}': {err}"}
             ret = method(self, **data)
             assert isinstance(ret, dict)
             return ret
